@@ -36,8 +36,117 @@ def replay_substitution(rep):
     return False, {"mode": "generated formulas x sub-term maps: nothing found"}
 
 
+def replay_optimizer(rep):
+    """the interval / comparison-table witness evaluated on the real classes"""
+    import warnings
+    warnings.simplefilter("ignore")
+    from pysmt.environment import Environment, push_env
+    from pysmt.typing import INT, BVType
+    from pysmt.optimization.optimizer import OptSearchInterval, OptPareto
+    from pysmt.optimization.goal import MinimizationGoal, MaximizationGoal
+    from native import refeval
+    w = rep.get("witness") or {}
+
+    def num(k):
+        v = w.get(k)
+        return None if v in (None, "None") else int(v)
+    env = Environment()
+    push_env(env)
+    m = env.formula_manager
+    kind, d, meth, shape = w.get("kind"), w.get("direction"), w.get("method"), w.get("shape") or ""
+    width = num("width")
+    signed = kind == "sbv"
+    x = m.Symbol("objective", INT if kind == "int" else BVType(width))
+    goal = (MinimizationGoal if d == "min" else MaximizationGoal)(x, signed)
+    V = num("objective_value")
+    raw = V if kind == "int" else V % (1 << width)
+
+    def better(a, b, strict=True):
+        if d == "min":
+            return a < b if strict else a <= b
+        return a > b if strict else a >= b
+
+    def holds(f):
+        return refeval.evaluate(f, refeval.Interp({x: raw})) is True
+    info = {"mode": "witness evaluated on the real OptSearchInterval / OptPareto", "witness": w}
+    try:
+        if meth == "get_constraint":
+            o = OptPareto(goal, env)
+            b = num("bound")
+            o.val = m.Int(b) if kind == "int" else m.SBV(b, width) if signed else m.BV(b, width)
+            strict = shape == "strict"
+            got = holds(o.get_constraint(strict))
+            info.update(got=got, want=better(V, b, strict))
+            return got != better(V, b, strict), info
+        o = OptSearchInterval(goal, env, [])
+        if meth == "__init__":
+            lo_, hi_ = (0, (1 << width) - 1) if kind == "ubv" else (-(1 << (width - 1)), (1 << (width - 1)) - 1) if signed else (None, None)
+            if kind == "int":
+                return not (o._lower is None and o._upper is None), info
+            ok = (o._lower <= lo_ and hi_ < o._upper) if d == "min" else (o._lower < lo_ and hi_ <= o._upper)
+            info.update(lower=o._lower, upper=o._upper)
+            return not ok, info
+        o._lower = num("lo") if "l" in shape else None
+        o._upper = num("up") if "u" in shape else None
+        o._pivot = num("pv") if "p" in shape else None
+        l0, u0, p0 = o._lower, o._upper, o._pivot
+        if meth == "empty":
+            got = o.empty()
+            want = (u0 <= l0) if (l0 is not None and u0 is not None) else False
+            info.update(got=got, want=want)
+            return got != want, info
+        if meth == "linear_search_cut":
+            b = u0 if d == "min" else l0
+            got = holds(o.linear_search_cut())
+            info.update(got=got, want=better(V, b))
+            return got != better(V, b) or (o._lower, o._upper) != (l0, u0), info
+        if meth in ("binary_search_cut", "_compute_pivot"):
+            if meth == "_compute_pivot":
+                p = o._compute_pivot()
+                bad = False
+            else:
+                f = o.binary_search_cut()
+                p = o._pivot
+                bad = holds(f) != better(V, p)
+            if l0 is not None and u0 is not None and l0 < u0:
+                bad = bad or not ((l0 < p <= u0) if d == "min" else (l0 <= p < u0))
+            elif l0 is None and u0 is not None:
+                bad = bad or not (p <= u0 if d == "min" else p < u0)
+            elif u0 is None and l0 is not None:
+                bad = bad or not (p > l0 if d == "min" else p >= l0)
+            info.update(pivot=p)
+            return bad, info
+        if meth == "search_is_sat":
+            mv = num("model_value")
+
+            class M:
+                def get_value(self, t, model_completion=True):
+                    return m.Int(mv) if kind == "int" else m.SBV(mv, width) if signed else m.BV(mv, width)
+            o.search_is_sat(M())
+            if d == "min":
+                want = mv if u0 is None else min(u0, mv)
+                bad = o._upper != want or o._lower != l0
+            else:
+                want = mv if l0 is None else max(l0, mv)
+                bad = o._lower != want or o._upper != u0
+            info.update(lower=o._lower, upper=o._upper, want=want)
+            return bad or o._pivot is not None, info
+        if meth == "search_is_unsat":
+            o.search_is_unsat()
+            src = p0 if p0 is not None else (u0 if d == "min" else l0)
+            bad = (o._lower != src or o._upper != u0) if d == "min" else (o._upper != src or o._lower != l0)
+            info.update(lower=o._lower, upper=o._upper, want=src)
+            return bad, info
+    except Exception as e:
+        info["exception"] = repr(e)
+        return True, info
+    return False, info
+
+
 def dispatch(rep):
     kind = rep.get("kind")
+    if kind == "optimizer":
+        return replay_optimizer(rep)
     if kind == "substitution":
         return replay_substitution(rep)
     if kind == "model":
